@@ -418,6 +418,63 @@ pub fn run(ctx: &mut Ctx) {
         }
         ctx.bounds.insert("sent_ahead".into(), json!(format!("{} bursts (every ordered pair of {} events, alone and followed by a token request)", bursts.len(), alpha.len())));
     }
+    // a client that closes at once: every event, and every ordered pair of events, directly followed by the shutdown
+    // request and the exit notification, everything sent before anything is read (an editor that is closed right after
+    // a keystroke): every request is answered once, the shutdown request too, and the server ends cleanly
+    {
+        let mut hs: Vec<Vec<usize>> = (0..alpha.len()).map(|a| vec![a]).collect();
+        for a in 0..alpha.len() {
+            for b in 0..alpha.len() {
+                hs.push(vec![a, b]);
+            }
+        }
+        let res: Vec<Vec<(String, String)>> = hs
+            .par_iter()
+            .map(|h| {
+                let mut failures = vec![];
+                let srv = MemSrv::new(Some(vec![0, 1]));
+                let mut ids: BTreeMap<i64, (usize, u32)> = BTreeMap::new();
+                let msgs: Vec<Value> = h
+                    .iter()
+                    .enumerate()
+                    .map(|(i, &ei)| {
+                        let mut m = alpha[ei].msg.clone();
+                        if alpha[ei].expect != Expect::Silent {
+                            m["id"] = json!(100 + i as i64);
+                            ids.insert(100 + i as i64, (ei, 0));
+                        }
+                        m
+                    })
+                    .collect();
+                let names: Vec<&str> = h.iter().map(|e| alpha[*e].name).collect();
+                let last = *names.last().unwrap();
+                let (r, out) = srv.close_after(&msgs);
+                for m in out.iter().filter(|m| m.get("method").is_none()) {
+                    match m["id"].as_i64().and_then(|i| ids.get_mut(&i)) {
+                        Some(x) => x.1 += 1,
+                        None => failures.push(("closed-at-once/unsolicited-response".to_string(), format!("{:?} then shutdown and exit: response {} answers no request", names, m))),
+                    }
+                }
+                for (_, (ei, n)) in &ids {
+                    if *n != 1 {
+                        failures.push((format!("closed-at-once/request-answered-{}-times/{}", n, alpha[*ei].name), format!("{:?} then shutdown and exit, sent without waiting: request '{}' got {} responses", names, alpha[*ei].name, n)));
+                    }
+                }
+                if let Err(e) = r {
+                    failures.push((format!("closed-at-once/unclean-termination/after-{}", last.split('(').next().unwrap_or(last)), format!("{:?} then shutdown and exit, sent without waiting: {}", names, e)));
+                }
+                failures
+            })
+            .collect();
+        for (h, fs) in hs.iter().zip(res.iter()) {
+            count += 1;
+            ctx.distinct(&format!("closed-at-once|{:?}", h));
+            for (k, w) in fs {
+                ctx.fail(k, w, json!({"mode":"closed-at-once","history": h.iter().map(|e| alpha[*e].name).collect::<Vec<_>>()}));
+            }
+        }
+        ctx.bounds.insert("closed_at_once".into(), json!(format!("{} histories (every event and every ordered pair of {} events) followed at once by shutdown and exit", hs.len(), alpha.len())));
+    }
     // the closing handshake in every shape JSON-RPC allows: the shutdown request with its params absent, null, an empty
     // object, an empty array or some other value, and the same for the exit notification, after four kinds of session
     {
@@ -822,6 +879,25 @@ pub fn replay(case: &Value) -> Result<String, String> {
         .iter()
         .map(|n| alpha.iter().position(|s| Some(s.name) == n.as_str()).ok_or_else(|| format!("unknown event {}", n)))
         .collect::<Result<_, _>>()?;
+    if case["mode"] == "closed-at-once" {
+        let srv = MemSrv::new(Some(vec![0, 1]));
+        let mut want = 0usize;
+        let msgs: Vec<Value> = hist
+            .iter()
+            .enumerate()
+            .map(|(i, &ei)| {
+                let mut m = alpha[ei].msg.clone();
+                if alpha[ei].expect != Expect::Silent {
+                    m["id"] = json!(100 + i as i64);
+                    want += 1;
+                }
+                m
+            })
+            .collect();
+        let (r, out) = srv.close_after(&msgs);
+        let got = out.iter().filter(|m| m.get("method").is_none() && m["id"].as_i64().map(|i| i >= 100).unwrap_or(false)).count();
+        return if got == want && r.is_ok() { Ok(format!("{} requests, {} responses, clean termination", want, got)) } else { Err(format!("{} requests, {} responses, termination {:?}", want, got, r)) };
+    }
     if case["mode"] == "burst" {
         // all messages sent before anything is read
         let mut srv = MemSrv::new(Some(vec![0, 1]));
